@@ -373,20 +373,29 @@ func main() {
 			}
 		}
 	}
-	scs = append(scs, scenario(cfg{SzxA: 0, SzxB: 0, Up: 33, Down: -1, Style: "do", CON: true, Two: true, Faults: ev.Pick(r, 1, 2), Preempt: ev.Pick(r, 0, 1)}))
+	scs = append(scs, scenario(cfg{SzxA: 0, SzxB: 0, Up: 33, Down: -1, Style: "do", CON: true, Two: true, Faults: ev.Pick(r, 1, 2), Preempt: 0}))
+	if r.Thorough() {
+		scs = append(scs, scenario(cfg{SzxA: 0, SzxB: 0, Up: 33, Down: -1, Style: "do", CON: true, Two: true, Faults: 1, Preempt: 1}))
+	}
 	for _, con := range []bool{true, false} {
 		// the resource changes while a download is in progress (stored response expires after a lost block request)
 		scs = append(scs, scenario(cfg{SzxA: 0, SzxB: 0, Up: -1, Down: 40, Style: "do", CON: con, Faults: ev.Pick(r, 2, 3), Changing: true}))
 		// two one-way block-wise writes issued concurrently on one connection
-		scs = append(scs, scenario(cfg{SzxA: 0, SzxB: 0, Up: 33, Down: -1, Style: "write", CON: con, Two: true, Faults: ev.Pick(r, 0, 1), Preempt: ev.Pick(r, 1, 2)}))
+		scs = append(scs, scenario(cfg{SzxA: 0, SzxB: 0, Up: 33, Down: -1, Style: "write", CON: con, Two: true, Faults: ev.Pick(r, 0, 1), Preempt: 1}))
+		if r.Thorough() {
+			scs = append(scs, scenario(cfg{SzxA: 0, SzxB: 0, Up: 33, Down: -1, Style: "write", CON: con, Two: true, Faults: 0, Preempt: 2}))
+		}
 	}
-	scs = append(scs, scenario(cfg{SzxA: 0, SzxB: 0, Up: -1, Down: 33, Style: "do", CON: false, Two: true, Faults: ev.Pick(r, 1, 2), Preempt: ev.Pick(r, 0, 1)}))
+	scs = append(scs, scenario(cfg{SzxA: 0, SzxB: 0, Up: -1, Down: 33, Style: "do", CON: false, Two: true, Faults: ev.Pick(r, 1, 2), Preempt: 0}))
+	if r.Thorough() {
+		scs = append(scs, scenario(cfg{SzxA: 0, SzxB: 0, Up: -1, Down: 33, Style: "do", CON: false, Two: true, Faults: 1, Preempt: 1}))
+	}
 	addPeer(r, &scs)
 	addStream(r, &scs)
 	sum := mcx.Explore(r, scs, mcx.Config{Wall: ev.Pick(r, 4*time.Minute, 30*time.Minute)})
 	mcx.Report(r, scs, sum)
 	r.Set("distinct_nontrivial", int64(len(sum.Outcomes)))
-	r.Set("rule", "scenario = SZX of the two endpoints x body size (0, 1, k*B-1, k*B, k*B+1 for k=1..3, B = smaller block size) x direction (Block1 upload, Block2 download, both) x style (Do, one-way WriteMessage) x CON|NON, bodies are position-dependent byte patterns salted per transfer; the relay delivers datagrams in order by default and may, within the fault budget, drop, duplicate, swap, or replay an already delivered datagram at every step; when nothing is in flight and a caller still waits virtual time advances by ACK_TIMEOUT+0.1 s and both endpoints run housekeeping (retransmission, expiry, 120 s request deadline); oracle: the server handler runs at most once per transfer and only with the exact body and options, a successful Do returns the exact response body, no caller is parked forever; distinct outcome = distinct (per-transfer result)")
+	r.Set("rule", "scenario = SZX of the two endpoints x body size (0, 1, k*B-1, k*B, k*B+1 for k=1..3, B = smaller block size) x direction (Block1 upload, Block2 download, both) x style (Do, one-way WriteMessage) x CON|NON, bodies are position-dependent byte patterns salted per transfer; the relay delivers datagrams in order by default and may, within the fault budget, drop, duplicate, swap, or replay an already delivered datagram at every step; when nothing is in flight and a caller still waits virtual time advances by ACK_TIMEOUT+0.1 s and both endpoints run housekeeping (retransmission, expiry, 120 s request deadline); oracle: the server handler runs at most once per transfer and only with the exact body and options, a successful Do returns the exact response body, no caller is parked forever; distinct outcome = distinct (per-transfer result); scripted-peer families: every order (depth 5-7) of upload blocks incl. a stale final block, a foreign-body block and foreign-token blocks (oracle: a delivered body is the in-order concatenation of blocks 0..k ending with the block just processed), and downloads by a conforming virtual receiver (2 tokens) whose initial/previous request is re-delivered with a fresh message ID at any point, changing resource with and without ETag (oracle: a completed in-order reassembly equals one body the application supplied)")
 	r.Sample(map[string]any{"scenario": scs[0].Name, "relay_history": "A>CON/POST/e001/B1:0+ DROP(B>ACK/Continue/e001/B1:0+) tick A>CON/POST/e001/B1:0+ ..."})
 	r.Assume("two-party world over in-memory sessions; BERT and stream transports are covered by the tcp family (stream.go)", "fault budget counts drop/duplicate/swap/replay decisions; ticks are free")
 	r.Finish()
